@@ -5,10 +5,11 @@ from .. import vlib
 TRUSTED = [
     "Lean 4.33 kernel; axioms per theorem listed under coverage.axioms (subset of propext, Classical.choice, Quot.sound)",
     "harness/fieldprops.cpp (deck renderer, observation through the public FieldPropsManager API, independent C++ reference interpreter) + lib/vlib.py differ; model driver (compiled Lean)",
-    "keyword_info tables (defaults, multiplier/top/global flags, SI factors) are read from the real global_kw_info<T>/UnitSystem at run time and handed to the model",
+    "keyword_info tables (defaults, multiplier/top/global flags, SI factors) are read from the real global_kw_info<T>/UnitSystem at run time and handed to the model; the hypothesis TablesOK of inactive_independence is evaluated on them by the driver on every case (tablesOkB, answer bad-tables)",
     "modelled, not verified: Parser (deck text -> DeckItems), EclipseGrid geometry and its active map (specified by `rank`; the real Box class is driven directly with arbitrary maps), libm (pow/log/log10 are called on both sides)",
+    "the one-cell semantics runProg1/runProg1N of the independence proofs are proof devices, tied to the code only through the theorems (no direct correspondence line)",
     "outside the model: PORV/TRAN*/TEMPI/saturation end points, multi-valued (compositional) keywords (only the fixed witness), SCHEDULE-section multipliers, aliases, GRIDOPTS/MULTREGP",
-    "three defects found while building the check (design.d/C12.md findings 1-3) are fixed in the code (5ceb9fc1d, d8c0ea4e0, 0679405ff); their reproductions run as fixed property-mode witnesses",
+    "four defects found by the check (design.d/C12.md findings 1-3, 6) are fixed in the code (5ceb9fc1d, d8c0ea4e0, 0679405ff, bf5bceae1); the reproductions of 1-3 run as fixed property-mode witnesses, 6 is covered by the armed accept/reject clause and the OPERATER-then-must-exist generator",
 ]
 
 
